@@ -736,7 +736,20 @@ fn c09_profiles() -> Vec<(&'static str, Profile, u32, u32)> {
     p.k_probe = 3;
     p.probe_lifecycle_pct = 50;
     p.max_ops = 40;
-    vec![("hist", p, 48000, 750000)]
+    // second profile: mostly lifecycle probes that remove / replace themselves from their own callbacks (the lifecycle
+    // list is one of the things a post-action has to keep exact for the requester and for whoever reuses its slot)
+    let mut q = Profile::base();
+    q.k_probe = 12;
+    q.probe_lifecycle_pct = 85;
+    q.k_ping = 2;
+    q.k_timer = 1;
+    q.post_pct = 55;
+    q.err_pct = 5;
+    q.o_insert = 12;
+    q.o_token = 14;
+    q.o_cause = 12;
+    q.max_ops = 30;
+    vec![("hist", p, 36000, 600000), ("lifecycle", q, 16000, 250000)]
 }
 
 pub static C09: HistProp = HistProp {
